@@ -5,6 +5,9 @@ import (
 	"flag"
 	"fmt"
 	"os"
+	"runtime"
+	"runtime/debug"
+	"runtime/pprof"
 	"strconv"
 	"strings"
 )
@@ -15,6 +18,7 @@ func (m *multiFlag) String() string     { return strings.Join(*m, ",") }
 func (m *multiFlag) Set(s string) error { *m = append(*m, s); return nil }
 
 func main() {
+	debug.SetGCPercent(1600)
 	if len(os.Args) < 2 {
 		fmt.Fprintln(os.Stderr, "usage: gosymx run|check|replay|selftest ...")
 		os.Exit(2)
@@ -49,9 +53,21 @@ func cmdRun(args []string) int {
 	mapOrder := fs.Int("maporder", 0, "map iteration order exploration (0 insertion, 1 rotations, n permutations up to n keys)")
 	cross := fs.Bool("crosscheck", false, "re-decide assertion queries with z3-new and cvc5")
 	redirectsFile := fs.String("redirects", "", "redirect table (JSON: callee -> harness function)")
+	cpuprof := fs.String("cpuprofile", "", "write CPU profile")
 	var params multiFlag
 	fs.Var(&params, "param", "K=V harness parameter (repeatable)")
 	fs.Parse(args)
+	if *cpuprof != "" {
+		f, _ := os.Create(*cpuprof)
+		pprof.StartCPUProfile(f)
+		defer pprof.StopCPUProfile()
+		runtime.SetBlockProfileRate(10000)
+		defer func() {
+			bf, _ := os.Create(*cpuprof + ".block")
+			pprof.Lookup("block").WriteTo(bf, 0)
+			bf.Close()
+		}()
+	}
 	cfg := defaultConfig()
 	cfg.Workers = *workers
 	cfg.Verbose = *verbose
@@ -97,8 +113,8 @@ func cmdRun(args []string) int {
 			return 2
 		}
 		results = append(results, res)
-		fmt.Printf("%s: paths=%d ends=%v asserts=%d obligations=%d queries=%d solver_ms=%d wall=%.1fs violations=%d inconclusive=%d\n",
-			h, res.Paths, res.Ends, res.Asserts, res.Obligations, res.Queries, res.SolverMs, res.WallS, len(res.Violations), len(res.Inconclusive))
+		fmt.Printf("%s: paths=%d ends=%v asserts=%d obligations=%d queries=%d solver_ms=%d wall=%.1fs violations=%d inconclusive=%d pathms=%d modelms=%d models=%d\n",
+			h, res.Paths, res.Ends, res.Asserts, res.Obligations, res.Queries, res.SolverMs, res.WallS, len(res.Violations), len(res.Inconclusive), res.PathMs, res.ModelMs, res.Models)
 		for _, v := range res.Violations {
 			fmt.Printf("  VIOL %s %s: %s %v\n", v.Kind, v.ID, v.Msg, v.Assignment)
 			if rc == 0 {
